@@ -261,7 +261,7 @@ def work(sc):
     return dict(fails=fails[:4], nontrivial=r["nontrivial"])
 
 
-FINISH = {"abc": [2, 3], "two": [2, 3, 5, 6], "loop": [2, 3], "strict": [2, 3]}
+FINISH = {"abc": [2, 3], "two": [2, 3, 5, 6], "loop": [2, 3], "strict": [2, 3], "mix": [2, 3, 5, 6]}
 D10_SCENARIO = dict(pat="two", n=2, finish=[2, 3, 5, 6],
                     acts=[["in", 0, 1], ["in", 0, 4], ["out", 0], ["upd", 1], ["restart", 1], ["in", 0, 5],
                           ["outinj2", 0, "send", 1]])
@@ -280,6 +280,17 @@ def oracle_scenarios(ctx):
                 # the other way round: the survivor's message arrives while the restarted instance is sending
                 sc.append(dict(pat="two", n=n, finish=FINISH["two"],
                                acts=base + [["restart", 1]] + pre + [["outinj2", 1, pt, 0]] + [["link", 0, 1, "up"]]))
+    # the restarted instance already holds a run of its own (or one a survivor's SYNC brought) when the snapshot
+    # arrives, and the snapshot also carries the run of a singleton pattern
+    for n in (2, 3):
+        base = [["in", 0, 1], ["in", 0, 4], ["out", 0], ["out", 0]] + [["upd", x] for x in range(1, n)]
+        for own in ([["in", 1, 1]], [["in", 1, 1], ["in", 1, 1]], [["in", 0, 1], ["out", 0], ["upd", 1]]):
+            for order in ([["out", 1], ["upd", 0], ["out", 0], ["upd", 1]], [["out", 1], ["out", 0], ["upd", 0], ["upd", 1]],
+                          [["out", 0], ["upd", 1], ["out", 1], ["upd", 0]]):
+                sc.append(dict(pat="mix", n=n, finish=FINISH["mix"], acts=base + [["restart", 1]] + own + order))
+            for pt in SN.POINTS:
+                sc.append(dict(pat="mix", n=n, finish=FINISH["mix"],
+                               acts=base + [["restart", 1]] + own + [["outinj2", 0, pt, 1], ["upd", 0], ["out", 0], ["upd", 1]]))
     # the restarted instance's first attempts fail (link down / failure reported after delivery): the announcement must
     # still accompany the first message that gets through
     for n in (2, 3):
